@@ -120,6 +120,15 @@ def run(ctx: Ctx):
             rule="case = (reduction/scan, label pattern, values, chunking, method); every case is evaluated under all split_every values and 6 orders; non-trivial = >=3 blocks",
             nontrivial=lambda c: len(c["chunks"][0]) >= 3, chunksize=2,
         )
+    if getattr(ctx, "only", None) != "proof":
+        from ..rtc.tree_case import tree_cases
+
+        run_bounded(
+            ctx, "C03.rtc.tree_builder", "flox.dask_array_ops._tree_reduce / partial_reduce / get_parts", tree_cases(24 if ctx.quick else 64, 8 if ctx.quick else 12), "vlib.rtc.tree_case:check_tree",
+            bound="EXHAUSTIVE over #blocks 1..%d x split_every 2..%d and the config default x 1-2 batch blocks x two block_index values" % ((24, 8) if ctx.quick else (64, 12)),
+            rule="postcondition on the graph dict: one root per batch index at (.., block_index); the leaves under each root are exactly its batch's blocks 0..n-1, once each, in increasing order; every task combines 1..split_every consecutive blocks of its own batch index; intermediate keys used exactly once; non-trivial = depth >= 2",
+            nontrivial=lambda c: c["nblocks"] > (c["split_every"] or 4), exhaustive=True, chunksize=16,
+        )
     ctx.assume("dask execution model: a task runs on the values of its dependency keys; interleavings of the threaded scheduler are sampled, not explored (schedule exploration is a different family)")
     ctx.na_subclaims.append("exploration of all interleavings of the multi-threaded scheduler: not decidable by per-function contracts; covered only through the purity obligations of C13")
     ctx.trust("dask schedulers", "dask.array.reductions._tree_reduce", "dask cumreduction(method='blelloch')", "z3 / cvc5")
